@@ -140,6 +140,9 @@ func splitPlans(w *core.W, j, n int) [][]int {
 		}
 		plans = append(plans, []int{1, 1, 1, n - 3})
 	}
+	// segments that carry the end of this frame together with the beginning (or all) of the next
+	// message: the peer has 14 more octets queued behind the frame
+	plans = append(plans, []int{n + 14}, []int{n + 1}, []int{n + 2}, []int{n + 3}, []int{1, n + 5}, []int{2, n + 12}, []int{n - 1, 9})
 	r := w.Rng(j, n)
 	for k := 0; k < 6; k++ {
 		var p []int
@@ -196,6 +199,18 @@ func c12ReadFraming(w *core.W, j int) {
 		if !bytes.Equal(back, want) {
 			w.Violation("C12/read-split-mangled", fmt.Sprintf("message read from a stream split as %v differs from the one sent (got %d octets, want %d)", planHead(plan), len(back), len(want)), map[string]any{"size": size, "plan": planHead(plan)})
 		}
+		// the message that follows on the same stream (already written by the peer, possibly delivered
+		// in the same segment) is the next thing read: nothing of it was consumed or dropped
+		var got2 *dns.Msg
+		if !within(c12Watch, func() { got2, err = co.ReadMsg() }) {
+			w.Violation("C12/following-message-lost", fmt.Sprintf("after reading a %d-octet frame split as %v, the next message on the stream is never delivered (ReadMsg blocks)", len(fr), planHead(plan)), map[string]any{"size": size})
+			fails++
+			continue
+		}
+		if err != nil || got2 == nil || got2.Id != m.Id {
+			w.Violation("C12/following-message-mangled", fmt.Sprintf("after a %d-octet frame split as %v, reading the following header-only message gave %v / err=%v", len(fr), planHead(plan), got2, err), map[string]any{"size": size, "plan": planHead(plan)})
+		}
+		w.Count("following_messages_read", 1)
 		w.NontrivialStr("read", fmt.Sprint(size), fmt.Sprint(planHead(plan)))
 	}
 	// early EOF / error at every offset (short frames), sampled for long ones
@@ -245,7 +260,10 @@ type c12Log struct {
 	handled map[string]int    // request key -> times handled
 	seen    map[string]string // request key -> digest of what the handler saw (re-packed)
 	hseq    atomic.Int64
+	tsig    map[string]string // request key -> TsigStatus seen by the handler ("ok", "none", or the error)
 }
+
+var c12Secrets = map[string]string{"crosstalk-key.": "c2VjcmV0LXNlY3JldC1zZWNyZXQtc2VjcmV0LTAxMjM="}
 
 func reqKey(m *dns.Msg) string {
 	if len(m.Question) == 0 {
@@ -259,7 +277,17 @@ func (l *c12Log) handler(hold time.Duration) dns.HandlerFunc {
 		if hold > 0 {
 			time.Sleep(hold) // keep using req while other packets arrive
 		}
-		b, err := req.Pack()
+		body := req
+		ts := "none"
+		if t := req.IsTsig(); t != nil {
+			ts = "ok"
+			if e := rw.TsigStatus(); e != nil {
+				ts = e.Error()
+			}
+			body = req.Copy() // the digest covers the message as the client built it, before signing
+			body.Extra = body.Extra[:len(body.Extra)-1]
+		}
+		b, err := body.Pack()
 		d := "pack-error"
 		if err == nil {
 			s := sha256.Sum256(b)
@@ -269,10 +297,16 @@ func (l *c12Log) handler(hold time.Duration) dns.HandlerFunc {
 		l.mu.Lock()
 		l.handled[k]++
 		l.seen[k] = d
+		if l.tsig != nil {
+			l.tsig[k] = ts
+		}
 		l.mu.Unlock()
 		r := new(dns.Msg)
 		r.SetReply(req)
 		r.Extra = append(r.Extra, &dns.TXT{Hdr: dns.RR_Header{Name: "digest.", Rrtype: dns.TypeTXT, Class: 1}, Txt: []string{d, fmt.Sprint(l.hseq.Add(1))}})
+		if t := req.IsTsig(); t != nil && ts == "ok" {
+			r.SetTsig(t.Hdr.Name, t.Algorithm, 300, time.Now().Unix())
+		}
 		rw.WriteMsg(r)
 	}
 }
@@ -469,13 +503,13 @@ func c12CrossTalk(w *core.W, j int) {
 	sched.Use(ctl)
 	defer sched.Use(nil)
 	network := []string{"udp", "tcp"}[j%2]
-	log := &c12Log{handled: map[string]int{}, seen: map[string]string{}}
+	log := &c12Log{handled: map[string]int{}, seen: map[string]string{}, tsig: map[string]string{}}
 	hold := time.Duration(0)
 	if j%4 == 2 {
 		hold = 300 * time.Microsecond
 	}
 	started := make(chan struct{})
-	srv := &dns.Server{Addr: "127.0.0.1:0", Net: network, Handler: log.handler(hold), NotifyStartedFunc: func() { close(started) }}
+	srv := &dns.Server{Addr: "127.0.0.1:0", Net: network, Handler: log.handler(hold), NotifyStartedFunc: func() { close(started) }, TsigSecret: c12Secrets}
 	serveErr := make(chan error, 1)
 	go func() { serveErr <- srv.ListenAndServe() }()
 	select {
@@ -493,6 +527,9 @@ func c12CrossTalk(w *core.W, j int) {
 	} else {
 		addr = srv.Listener.Addr().String()
 	}
+	var tsigReplyErrs atomic.Int64
+	var firstTsigErr atomic.Value
+	signedKeys := map[string]bool{}
 	nclients := []int{4, 8, 16, 32}[j%4]
 	per := 12
 	type sent struct {
@@ -511,6 +548,10 @@ func c12CrossTalk(w *core.W, j int) {
 			defer wg.Done()
 			r := w.Rng(j, c)
 			cli := &dns.Client{Net: network, Timeout: 5 * time.Second, UDPSize: 4096}
+			signing := c%3 == 0 // a third of the clients sign their requests (TSIG) and verify the signed replies
+			if signing {
+				cli.TsigSecret = c12Secrets
+			}
 			var conn *dns.Conn
 			for s := 0; s < per; s++ {
 				m := new(dns.Msg)
@@ -521,7 +562,9 @@ func c12CrossTalk(w *core.W, j int) {
 				for i := range pay {
 					pay[i] = byte('a' + r.IntN(26))
 				}
-				m.Extra = append(m.Extra, &dns.TXT{Hdr: dns.RR_Header{Name: "payload.", Rrtype: dns.TypeTXT, Class: 1}, Txt: []string{string(pay)}})
+				if !signing { // the default accept policy allows two additional records: payload+OPT or OPT+TSIG
+					m.Extra = append(m.Extra, &dns.TXT{Hdr: dns.RR_Header{Name: "payload.", Rrtype: dns.TypeTXT, Class: 1}, Txt: []string{string(pay)}})
+				}
 				o := &dns.OPT{Hdr: dns.RR_Header{Name: ".", Rrtype: dns.TypeOPT, Class: 4096}}
 				local := make([]byte, 8+r.IntN(40))
 				for i := range local {
@@ -537,9 +580,17 @@ func c12CrossTalk(w *core.W, j int) {
 				d := sha256.Sum256(b)
 				mu.Lock()
 				sents = append(sents, sent{strings.ToLower(key), hex.EncodeToString(d[:]), m.Id})
+				if signing {
+					signedKeys[strings.ToLower(key)] = true
+				}
 				mu.Unlock()
+				if signing {
+					m.SetTsig("crosstalk-key.", dns.HmacSHA256, 300, time.Now().Unix())
+				}
 				var rep *dns.Msg
-				if network == "tcp" && c%2 == 0 { // half of the TCP clients reuse one connection
+				// (signing clients dial per query: Conn.WriteMsg signs a second query on the same Conn as a
+				// continuation of the first - with the previous MAC - which no server accepts; outside C12)
+				if network == "tcp" && c%2 == 0 && !signing { // half of the TCP clients reuse one connection
 					if conn == nil {
 						conn, err = cli.Dial(addr)
 						if err != nil {
@@ -550,8 +601,16 @@ func c12CrossTalk(w *core.W, j int) {
 				} else {
 					rep, _, err = cli.Exchange(m, addr)
 				}
+				if err != nil && signing && (errors.Is(err, dns.ErrSig) || errors.Is(err, dns.ErrTime) || errors.Is(err, dns.ErrSecret) || errors.Is(err, dns.ErrKeyAlg) || errors.Is(err, dns.ErrNoSig)) {
+					tsigReplyErrs.Add(1)
+					firstTsigErr.CompareAndSwap(nil, fmt.Sprintf("client %d seq %d (%s): %v", c, s, key, err))
+					continue
+				}
 				if err != nil || rep == nil {
 					continue // loss/timeouts are legal: the request stays open
+				}
+				if signing && rep.IsTsig() != nil {
+					rep.Extra = rep.Extra[:len(rep.Extra)-1]
 				}
 				if rep.Id != m.Id || len(rep.Question) != 1 || !strings.EqualFold(rep.Question[0].Name, key) || len(rep.Extra) == 0 {
 					badReplies.Add(1)
@@ -592,6 +651,21 @@ func c12CrossTalk(w *core.W, j int) {
 	for _, s := range sents {
 		sentBy[s.key] = s
 	}
+	if n := tsigReplyErrs.Load(); n > 0 {
+		w.Violation("C12/signed-reply-rejected/"+network, fmt.Sprintf("%d signed replies failed TSIG verification at their client: %v", n, firstTsigErr.Load()), nil)
+	}
+	nsigned := 0
+	for k, st := range log.tsig {
+		if signedKeys[k] {
+			nsigned++
+			if st != "ok" {
+				w.Violation("C12/handler-saw-bad-tsig-status/"+network, fmt.Sprintf("request %q was correctly signed by its client but its handler saw TsigStatus %q", k, st), map[string]any{"scribble": true, "clients": nclients})
+			}
+		} else if st != "none" {
+			w.Violation("C12/handler-saw-tsig-on-unsigned-request/"+network, fmt.Sprintf("request %q was sent unsigned but its handler saw a TSIG record (status %q)", k, st), nil)
+		}
+	}
+	w.Count("signed_requests_handled_"+network, nsigned)
 	for k, n := range log.handled {
 		s, ok := sentBy[k]
 		if !ok {
@@ -676,6 +750,6 @@ func init() {
 			"65536+ octet writes; stream/datagram ID handling with 0..5 stale/duplicate/foreign replies in seeded orders; cross-talk: 4..32 concurrent clients x 12 unique requests against real loopback UDP/TCP servers with scribbled recycled buffers and hook delays, offline exactly-once/no-mixing check; race detector on; " +
 			"non-trivial = distinct (size, split plan) / scripted reply order / cross-talk round",
 		Assumptions: []string{"loss of UDP datagrams is legal: an unanswered request stays open, never 'failed'", "a watchdog of 20 s decides 'hang' for in-memory transports"},
-		MinObserved: []string{"split_plans", "fault_offsets", "server_split_plans", "datagram_scripts", "exchanges_udp", "exchanges_tcp", "hook_poolPut", "oversize_response_writes"},
+		MinObserved: []string{"split_plans", "fault_offsets", "server_split_plans", "datagram_scripts", "exchanges_udp", "exchanges_tcp", "hook_poolPut", "oversize_response_writes", "following_messages_read", "signed_requests_handled_udp", "signed_requests_handled_tcp"},
 	})
 }
